@@ -166,6 +166,16 @@ def make_defs(tier: str, seed: int):
         {"FromStr": {"mode": "table"}}, {"as_str": {"mode": "table"}}, {"Debug": {}}, {"Display": {}}, {"IntoStr": {}},
         {"names": {}}, {"iter": {}}, {"from_str": {}, "FromStr": {}, "as_str": {}},
     ]
+    # dependants must use a renamed item under its new name even when that name is also a prelude trait method or
+    # the struct name is also the name of a core type
+    pullers += [
+        {"next": {"name": "clone"}, "next_back": {"name": "to_owned"}, "iter": {"mode": "next_and_back"}, "range": {}},
+        {"as_str": {"name": "to_string"}, "Display": {}, "Debug": {}, "IntoStr": {}},
+        {"as_str": {"name": "into", "mode": "table"}, "Debug": {}, "names": {}},
+        {"iter": {"struct_name": "Iter", "mode": "table"}, "range": {}, "names": {"struct_name": "Map"}},
+        {"MIN": {"name": "MAX"}, "MAX": {"name": "MIN"}, "next": {"name": "next_back"}, "next_back": {"name": "next"},
+         "iter": {"mode": "next_and_back", "name": "names"}, "names": {"name": "iter"}},
+    ]
     for kind in (["pub", "crate"] if tier == "quick" else ["pub", "crate", "super", "in"]):
         for pi, feats in enumerate(pullers):
             for holes in ((pi + len(kind)) % 2 == 0,) if tier == "quick" else (False, True):
@@ -228,7 +238,10 @@ def run(tier: str, seed: int) -> int:
                     else:
                         neg.append((loc, f, kind, name, vis))
             # the default name must be gone after renaming; helpers are not reachable from the parent
+            taken = {p.get("name") for p in d.cfg.feats.values()} | {p.get("struct_name") for p in d.cfg.feats.values()}
             for f, p in d.cfg.feats.items():
+                if f in taken:
+                    continue  # another item was given this default name: the path exists, legitimately
                 if "name" in p and f in FN_ITEMS + CONST_ITEMS:
                     neg.append(("inner", f, "const" if f in CONST_ITEMS else "fn", f, "renamed-away"))
                     counts["default_name_negative"] += 1
